@@ -44,6 +44,9 @@ CASES = [
     ('generator-flatten', 'def fl(s, lev=0):\n    for it in s:\n        if isinstance(it, (list, tuple)) and lev < 2:\n            for sub in fl(it, lev + 1):\n                yield sub\n        else:\n            yield it\nr = list(fl([a, [b, (a, [b])], x])) [:3] + list(fl(x))', dict(x='list', a='real', b='real')),
     ('allclose', 'r = [bool(numpy.allclose(a, b, rtol=0.25, atol=0.5)), bool(numpy.allclose(x, y, rtol=0.5, atol=1.0)), bool(numpy.allclose(x, a, 0.5, 2.0))]',
      dict(x='list', y='list_same', a='real', b='real')),
+    ('round-half-even', 'r = numpy.round([a, b, 0.5, 1.5, 2.5, -0.5, -1.5]).tolist() + [float(numpy.round(a, 1)), round(b), round(2.5), round(-3.5)]', dict(a='real', b='real')),
+    ('choose-mask-astype', 'm = numpy.zeros(len(x), dtype=bool)\nm[[0]] = True\nr = numpy.choose(m, (x, numpy.round(x))).astype(float).tolist() + numpy.asarray(x).astype(int).tolist() + [m.size]', dict(x='list1')),
+    ('sorted-key-abs', 'r = sorted([3, -1, 2, -5], key=abs) + sorted((4, -2, 0), key=abs, reverse=True) + [i]', dict(i='int')),
     ('abs-tolerance', 'r = tol + abs(a) * rel', dict(a='real', tol='real', rel='real')),
 ]
 
